@@ -292,7 +292,7 @@ fn soup_base(tapes: &[Vec<u32>], cfg: Cfg, reqs: Vec<Req>) -> PairCase {
     let chunk_c2s = (0..n1).map(|_| t3.u32()).collect();
     let n2 = t3.below(100);
     let chunk_s2c = (0..n2).map(|_| t3.u32()).collect();
-    PairCase { cap: None, accept_limit: None, ccfg: cfg.clone(), scfg: cfg, client_init_max_send: None, vectored_c: t3.bool(), vectored_s: t3.bool(), sched, chunk_c2s, chunk_s2c, reqs, ops: vec![], fault: None, drop_send_request_at_end: false }
+    PairCase { cap: None, accept_limit: None, ccfg: cfg.clone(), scfg: cfg, client_init_max_send: None, vectored_c: t3.bool(), vectored_s: t3.bool(), sched, chunk_c2s, chunk_s2c, reqs, ops: vec![], fault: None, drop_send_request_at_end: false , nest: vec![]}
 }
 
 pub struct SoupEngine {
